@@ -177,6 +177,42 @@ theorem old_sixframes_spec (code : Nat × List Char × List Char) (hc : code ∈
 
 example : Canon ['A', 'T', 'G'] ∧ 3 ≤ ['A', 'T', 'G'].length := by decide
 
+/-! ## stop handling of `Sequence.get_translation` (canonical gap-free sequences) -/
+
+/-- New `Sequence.get_translation`: for every code, every non-empty canonical sequence (< 256 codons) and all
+eight combinations of `incomplete_ok`, `include_stop`, `trim_stop`, the result is the specification's:
+a terminal stop is trimmed iff `trim_stop`, remaining stops are kept iff `include_stop` and rejected
+otherwise (a length not divisible by three is rejected when trimming with `incomplete_ok=False`). -/
+theorem get_translation_stop_rules (code : Nat × List Char × List Char) (hc : code ∈ newCodes)
+    (s : List Char) (hs : Canon s) (hne : s ≠ []) (hsmall : s.length / 3 < 256) (io is_ ts : Bool) :
+    newSeqGetTranslation newDna code.2.1 s io is_ ts =
+      outcomeToExcept (GCSpec.getTranslation code.2.1 s io is_ ts) :=
+  new_stop_rules code.2.1 (plus_codon code hc) (new_getitem_codon code hc)
+    (aa_not_gap_x code (List.mem_append_left _ hc)) s hs hne hsmall io is_ ts
+
+example : Canon ['A', 'T', 'G', 'T', 'A', 'A'] ∧ ['A', 'T', 'G', 'T', 'A', 'A'] ≠ [] := by decide
+
+/-- Old `Sequence.get_translation`: the same, for every combination except
+`include_stop = trim_stop = True`. -/
+theorem old_get_translation_stop_rules_partial (code : Nat × List Char × List Char) (hc : code ∈ oldCodes)
+    (s : List Char) (hs : Canon s) (hne : s ≠ []) (io is_ ts : Bool) (hopt : ¬ (is_ = true ∧ ts = true)) :
+    oldSeqGetTranslation code.2.1 s io is_ ts =
+      outcomeToExcept (GCSpec.getTranslation code.2.1 s io is_ ts) :=
+  old_stop_rules code.2.1 (old_codon code hc) s hs hne io is_ ts hopt
+
+example : ¬ (false = true ∧ true = true) := by decide
+
+/- FULL STATEMENT (not proved): `old_get_translation_stop_rules` = the statement above without `hopt`.
+   False for the code as written: `if include_stop or not trim_stop:` skips the trimming, so with
+   `include_stop=True, trim_stop=True` the terminal stop stays (`old_get_translation_counter`), where the
+   new implementation trims it. -/
+
+/-- Witness: `ATGAAATAA`, `include_stop = trim_stop = True`: old gives `MK*`, the specification `MK`. -/
+theorem old_get_translation_counter : ∃ code ∈ oldCodes,
+    oldSeqGetTranslation code.2.1 ['A', 'T', 'G', 'A', 'A', 'A', 'T', 'A', 'A'] false true true ≠
+      outcomeToExcept (GCSpec.getTranslation code.2.1 ['A', 'T', 'G', 'A', 'A', 'A', 'T', 'A', 'A'] false true true) := by
+  decide +kernel
+
 /-! ## complement, reverse complement, ambiguity codes -/
 
 /-- the IUPAC symbols of a molecular type: canonical characters, gap, degenerate symbols, missing -/
